@@ -143,7 +143,9 @@ func jsonSeg(v any) string {
 // whether the signature is genuinely valid under the configured key set (sigOK).
 func mintID(ts tokenSpec) (tok string, sigOK bool) {
 	ks := getKeys()
-	claims := map[string]any{"iss": "https://idp.verif", "sub": ts.Sub, "exp": ts.Exp, "iat": ts.Iat, "jti": ts.Jti}
+	// (with the profile claims providers usually add)
+	claims := map[string]any{"iss": "https://idp.verif", "sub": ts.Sub, "exp": ts.Exp, "iat": ts.Iat, "jti": ts.Jti,
+		"email": ts.Sub + "@example.com", "email_verified": true, "name": "User " + ts.Sub, "preferred_username": ts.Sub}
 	if ts.Aud != nil {
 		claims["aud"] = ts.Aud
 	}
